@@ -351,7 +351,7 @@ class Server:
         if any(n._touched_mp.values()) or any(n._touched_bp.values()):
             return False
         loop = asyncio.get_event_loop()
-        if getattr(loop, 'jobs', None):
+        if getattr(loop, 'jobs', None) or getattr(loop, 'timed_jobs', None):
             return False
         for c in self.clients:
             if not c.closed and (not c.queue.empty() or c.session.unanswered_request_count()):
